@@ -3,7 +3,7 @@ import re
 
 from .. import hir as H
 from ..facts import facts
-from ..symadt import Shape, Sym, explore
+from ..symadt import Adt, Shape, Sym, explore
 
 EXPLANATION = (
     "D1: for every impl of CollectiveMessage (15 families) and every older protocol version N in {2,3,5,6,7} the composition "
@@ -42,6 +42,15 @@ def roundtrip(ctx, F, impl, assoc):
         def run(it, N=N, vt=vt):
             v = Sym("v", vt)
             lifted = it.call_path(f"{impl['path']}::from_version_{N}", [v], [])
+            # name preservation: a member of the collective value that is a plain copy of a member of v must be the member of the same
+            # name when v has one (a swap made consistently in from_ and to_ survives the round trip but shows wrong values to the user)
+            lf, vf = it.force(lifted), it.force(v)
+            if isinstance(lf, Adt) and isinstance(vf, Adt):
+                for f, val in lf.fields.items():
+                    if isinstance(val, Sym) and val.path.startswith("v.") and f in vf.fields:
+                        g = val.path.split(".")[-1]
+                        if g != f and g in vf.fields and val.path.count(".") == (2 if vf.variant else 1):
+                            return f"v.{f}: the collective member `{f}` is filled from the version-{N} member `{g}` although the version-{N} value has a member `{f}` (members swapped or misrouted)"
             lowered = it.call_path(f"{impl['path']}::to_version_{N}", [lifted], [])
             return it.same(lowered, v, "v")
 
@@ -60,6 +69,9 @@ def roundtrip(ctx, F, impl, assoc):
                 continue
             seen.add(where)
             shape = ", ".join(f"{k[0]}{'.' + k[2] if len(k) > 2 else ''}={v}" for k, v in sorted(dec.items(), key=str)) or "any value"
+            if "is filled from" in diff:
+                ctx.violate("coll.identity", f"{name}|v{N}|{where}|names", f"{name}: from_version_{N}(v) for version-{N} values with [{shape}] — {diff.split(': ', 1)[1]}", ff["file"], ff["line"])
+                continue
             ctx.violate("coll.identity", f"{name}|v{N}|{where}",
                         f"{name}: to_version_{N}(from_version_{N}(v)) != v for version-{N} values with [{shape}] — {diff}", tf["file"], tf["line"])
     return n, cases_total
